@@ -33,6 +33,56 @@ def _parents(tree):
     return par
 
 
+_OPERATOR_GAP = re.compile(r'^(\s|\+|-|\*|/|%|<|>|=|!|&|\||\^|~|\band\b|\bor\b|\bnot\b|\bin\b|\bis\b)+$')
+_OPTREE = (ast.BinOp, ast.BoolOp, ast.Compare, ast.UnaryOp)
+
+
+def _operand_runs(text, tree, par, exprs):
+    """Text ranges that run from the start of one operand to the end of a later operand of the
+    same (parenthesis-free, one-line) operator expression without being a sub-expression in
+    Python's expression tree: `b + c` in `a * b + c`, `b - c` in `a - b - c`, `b < c` in
+    `a < b < c`.  jedi documents that such ranges can be extracted.  Flags are those of the
+    whole operator expression plus operand_run=True."""
+    by_range = {(tuple(e['start']), tuple(e['end'])): e for e in exprs}
+    lines = text.split('\n')
+    out = []
+    for top in ast.walk(tree):
+        if not isinstance(top, (ast.BinOp, ast.BoolOp, ast.Compare)) or isinstance(par.get(top), _OPTREE):
+            continue
+        if top.lineno != top.end_lineno:
+            continue
+        top_sel = by_range.get(((top.lineno, top.col_offset), (top.end_lineno, top.end_col_offset)))
+        if top_sel is None:
+            continue
+        atoms = []
+        stack = [top]
+        while stack:
+            n = stack.pop()
+            if isinstance(n, _OPTREE):
+                stack.extend(c for c in ast.iter_child_nodes(n) if isinstance(c, ast.expr))
+            else:
+                atoms.append(n)
+        atoms.sort(key=lambda n: n.col_offset)
+        if len(atoms) < 3 or any(a.lineno != top.lineno or a.end_lineno != top.lineno for a in atoms):
+            continue
+        line = lines[top.lineno - 1]
+        gaps = [line[a.end_col_offset:b.col_offset] for a, b in zip(atoms, atoms[1:])]
+        if not all(_OPERATOR_GAP.match(g) for g in gaps) or \
+                line[top.col_offset:atoms[0].col_offset].strip(' -+~not') != '':
+            continue       # parentheses (or anything unexpected) between operands: not generated
+        for i in range(len(atoms)):
+            for j in range(i + 1, len(atoms)):
+                if i == 0 and j == len(atoms) - 1:
+                    continue
+                start, end = (top.lineno, atoms[i].col_offset), (top.lineno, atoms[j].end_col_offset)
+                if (start, end) in by_range:
+                    continue       # a real sub-expression: already among the ast ranges
+                out.append({'start': start, 'end': end, 'code': line[start[1]:end[1]],
+                            'flags': dict(top_sel['flags'], operand_run=True, node='OperandRun',
+                                          operators=sorted(set(''.join(gaps[i:j]).split())))})
+    return out
+
+
 def analyse(text):
     """Returns (expr selections, statement-range selections, inline candidates)."""
     tree = ast.parse(text)
@@ -215,6 +265,7 @@ def analyse(text):
                                             'contains_nonlocal_global': any(
                                                 isinstance(x, (ast.Nonlocal, ast.Global))
                                                 for s_ in seg for x in ast.walk(s_))}})
+    exprs.extend(_operand_runs(text, tree, par, exprs))
     # single-assignment variables (for inline): Name targets assigned exactly once in the file
     counts = {}
     for node in ast.walk(tree):
